@@ -94,111 +94,9 @@ def run(ctx):
     ctx.clause("C16.7 the column-index builder records a page as a null page exactly when its caller says so, and the bounds it was given")
     _index_builder_records(ctx)
     f = P.fn("carquet_reader_row_group_matches", RS)
-    # the two comparison results, found by what they are computed from: cmp(value, stats.<bound>)
-    roles = {}
-    for n in f.body.walk():
-        tgt, rhs = None, None
-        if is_assign(n) and n.op == "=" and n.c[0].strip().k == "DeclRefExpr" and n.c[0].strip().get("dk") == "local":
-            tgt, rhs = (n.c[0].strip().get("d"), n.c[0].strip().name), n.c[1]
-        elif n.k == "DeclStmt":
-            for d, init in zip(n.get("decls", []), n.c):
-                if init is not None and "d" in d:
-                    call = init.strip_casts()
-                    if call.k == "CallExpr":
-                        tgt, rhs = (d["d"], d["n"]), init
-        if tgt is None:
-            continue
-        call = rhs.strip_casts()
-        if call.k != "CallExpr" or not call.args():
-            continue
-        args = call.args()
-        first = args[0].strip_casts()
-        bounds = set(x.name for ar in args[1:] for x in ar.walk() if x.k == "MemberExpr" and x.name in ("min_value", "max_value"))
-        if len(bounds) != 1:
-            continue
-        bound = bounds.pop()
-        roles.setdefault(bound, []).append((tgt, n, first))
-    for bound in ("min_value", "max_value"):
-        defs = roles.get(bound, [])
-        if not defs:
-            raise AnalysisBroken("row_group_matches: no local computed as cmp(value, stats.%s)" % bound)
-        ids = set(t[0][0] for t in defs)
-        if len(ids) != 1:
-            raise AnalysisBroken("row_group_matches: cmp(value, stats.%s) is stored in several locals" % bound)
-        for (d, name), n, first in defs:
-            ctx.ob("R5.roles", "cmp-roles|%s:%s|%s" % (RS, f.name, bound), P.where(n),
-                   "`%s` = cmp(value, stats.%s) (probe first, its own bound second)" % (name, bound),
-                   first.k == "DeclRefExpr" and first.get("dk") == "param" and first.name == "value", src(n)[:90])
-    dmin, dmax = roles["min_value"][0][0][0], roles["max_value"][0][0][0]
-    # operator table by abstract execution: the two comparison results are forced to each feasible sign
-    # pair, everything else (statistics, comparator) is unknown; a group may only be reported as
-    # not matching on a path when no x in [min,max] satisfies `x op value`
-    from ..rules import sem
-    ops = P.enum("carquet_compare_op")
-    pn = [p_["n"] for p_ in f.params]
-    if "op" not in pn or "might_match" not in pn:
-        raise AnalysisBroken("row_group_matches: parameters op / might_match not found")
-    cells = 0
-    unset = None
-    for opname, exists in EXISTS.items():
-        if opname not in ops:
-            raise AnalysisBroken("operator %s not in carquet_compare_op" % opname)
-        for cname, (sa, sb) in CELLS.items():
-            cells += 1
-            args = []
-            for p_ in f.params:
-                if p_["n"] == "op":
-                    args.append(ops[opname])
-                elif p_["n"] == "might_match":
-                    args.append(sem.Ptr("mm", 0, 1))
-                elif "*" in p_["t"]:
-                    args.append(sem.Ptr("p_" + p_["n"], 0, 1))
-                else:
-                    args.append(4 if "size" in p_["n"] else 0)
-            key = "optable|%s:%s|%s|%s" % (RS, f.name, opname, cname)
-            try:
-                paths = sem.run(P, f, args, single=False, forced={dmin: sa, dmax: sb}, max_forks=4096, budget=2000000,
-                                hooks={"carquet_reader_column_statistics": lambda ev, a, it: 0})
-            except sem.Inconclusive as ex:
-                ctx.inconclusive("R5.optable", key, P.where(f.body), "abstract execution of the pruning table", str(ex))
-                continue
-            finals = [heap.get(("mm", 0)) for ret, ev, heap in paths]
-            pruned = any(v == 0 for v in finals)
-            if any(v is None for v in finals) and unset is None:
-                unset = (opname, cname)
-            must = exists(sa, sb)
-            ctx.ob("R5.optable", key, P.where(f.body),
-                   "%s with %s: %s" % (opname, cname, "a matching x exists, the group must be kept" if must
-                                       else "no x matches, pruning allowed"),
-                   not (pruned and must), "some path reports no match (%d paths)" % len(paths) if pruned else "%d paths" % len(paths))
-    ctx.floor("C16 operator table cells", cells, 36)
-    ctx.ob("R6.default", "default-true|%s:%s" % (RS, f.name), P.where(f.body),
-           "*might_match is assigned on every path (never left to the caller's initial value)", unset is None,
-           "unassigned on a path of %s / %s" % unset if unset else "")
-    # a failing statistics lookup means "might match"
-    try:
-        args = [sem.Ptr("mm", 0, 1) if p_["n"] == "might_match" else (sem.Ptr("p_" + p_["n"], 0, 1) if "*" in p_["t"] else 0)
-                for p_ in f.params]
-        paths = sem.run(P, f, args, single=False, max_forks=4096, budget=2000000,
-                        hooks={"carquet_reader_column_statistics": lambda ev, a, it: 7})
-        bad_err = [1 for ret, ev, heap in paths if heap.get(("mm", 0)) == 0]
-        ctx.ob("R6.default", "stats-error-match|%s:%s" % (RS, f.name), P.where(f.body),
-               "when the statistics lookup fails no path reports `no match`", not bad_err)
-    except sem.Inconclusive as ex:
-        ctx.inconclusive("R6.default", "stats-error-match|%s:%s" % (RS, f.name), P.where(f.body), "abstract execution", str(ex))
-    # the has_min_max test (with a return) dominates the comparisons: bounds are only read when present
-    hm = [n for n in f.body.walk() if n.k == "IfStmt" and any(
-        x.k == "MemberExpr" and x.name == "has_min_max" for x in [y for y in n.c if y is not None][0].walk())]
-    okhm = False
-    if hm:
-        first = min((x for x in hm[0].walk() if x.i in f.cfg.where()), key=lambda x: x.i)
-        exits = any(r.k == "ReturnStmt" for r in [y for y in hm[0].c if y is not None][1].walk())
-        cmps = [n for b in ("min_value", "max_value") for (_, n, _) in roles[b]]
-        firsts = [min((x for x in n.walk() if x.i in f.cfg.where()), key=lambda x: x.i, default=None) for n in cmps]
-        okhm = exits and all(x is not None and f.cfg.node_dominates(first, x) for x in firsts)
-    ctx.ob("R6.default", "no-stats-match|%s:%s" % (RS, f.name), P.where(f.body),
-           "without min/max statistics the function returns before the bounds are compared", okhm)
+    _row_group_matches(ctx, f)
 
+    from ..rules import sem
     g = P.fn("carquet_reader_filter_row_groups", RS)
     # filter_row_groups by abstract execution over small scenarios: N row groups, each reported as
     # match / no match / error by the (hooked) per-group predicate; the result must be the first
@@ -671,3 +569,110 @@ def _index_builder_records(ctx):
                "(%d argument shapes, abstract execution)" % n, bad is None, bad or "")
     except (sem.Inconclusive, KeyError) as ex:
         ctx.inconclusive("R5.agree", key, P.where(f.body), "abstract execution of add_page", "%s: %s" % (type(ex).__name__, ex))
+
+
+def _row_group_matches(ctx, f):
+    """carquet_reader_row_group_matches, executed abstractly with real integer statistics: the statistics
+    lookup is hooked to hand out [min, max] (values the comparators then read through their pointers),
+    the schema says INT32 / INT64, and the probe value, the bounds and the operator range over a grid.
+    Whenever some x in [min, max] satisfies `x op value` the group must be reported as a possible match.
+    How the comparisons are organised (locals, a helper returning a struct, a table of comparators) is
+    immaterial."""
+    from ..rules import sem
+    P = ctx.P
+    ops = P.enum("carquet_compare_op")
+    phys = P.enum("carquet_physical_type")
+    so = sem.field_offsets(P, "carquet_column_statistics")
+    ro = sem.field_offsets(P, "carquet_reader")
+    sc = sem.field_offsets(P, "carquet_schema")
+    eo = sem.field_offsets(P, "parquet_schema_element")
+    esz = P.record("parquet_schema_element")["size"]
+    pn = [p_["n"] for p_ in f.params]
+    if "op" not in pn or "might_match" not in pn:
+        raise AnalysisBroken("row_group_matches: parameters op / might_match not found")
+    truth = {"CARQUET_COMPARE_EQ": lambda lo, hi, v: lo <= v <= hi, "CARQUET_COMPARE_NE": lambda lo, hi, v: not (lo == hi == v),
+             "CARQUET_COMPARE_LT": lambda lo, hi, v: lo < v, "CARQUET_COMPARE_LE": lambda lo, hi, v: lo <= v,
+             "CARQUET_COMPARE_GT": lambda lo, hi, v: hi > v, "CARQUET_COMPARE_GE": lambda lo, hi, v: hi >= v}
+
+    def run_(op, tname, lo, hi, v, have=1, status=0):
+        vals = {"val": v, "min": lo, "max": hi}
+
+        def stats(ev, a, it):
+            st = a[3]
+            if isinstance(st, sem.Ptr) and status == 0:
+                it.heap[(st.base, st.off + so["has_min_max"])] = have
+                it.heap[(st.base, st.off + so["min_value"])] = sem.Ptr("min", 0, 1)
+                it.heap[(st.base, st.off + so["max_value"])] = sem.Ptr("max", 0, 1)
+                it.heap[(st.base, st.off + so["min_value_size"])] = 8 if "64" in tname else 4
+                it.heap[(st.base, st.off + so["max_value_size"])] = 8 if "64" in tname else 4
+            return status
+        heap0 = {("rd", ro["schema"]): sem.Ptr("sch", 0, 1), ("sch", sc["leaf_indices"]): sem.Ptr("li", 0, 4),
+                 ("sch", sc["elements"]): sem.Ptr("els", 0, esz), ("li", 8): 3,
+                 ("els", 3 * esz + eo["has_type"]): 1, ("els", 3 * esz + eo["type"]): phys[tname]}
+        args = []
+        for p_ in f.params:
+            if p_["n"] == "op":
+                args.append(op)
+            elif p_["n"] == "might_match":
+                args.append(sem.Ptr("mm", 0, 1))
+            elif p_["n"] == "value":
+                args.append(sem.Ptr("val", 0, 1))
+            elif p_["n"] == "reader":
+                args.append(sem.Ptr("rd", 0, 1))
+            elif p_["n"] == "column_index":
+                args.append(2)
+            elif "size" in p_["n"]:
+                args.append(8 if "64" in tname else 4)
+            else:
+                args.append(0)
+        ret, ev, heap = sem.run(P, f, args, heap0=heap0, single=True, max_forks=64, hooks={"carquet_reader_column_statistics": stats},
+                                memory=lambda base, off, size: vals.get(base) if off == 0 else None)
+        return ret, heap.get(("mm", 0))
+    cells = 0
+    for opname in sorted(truth):
+        if opname not in ops:
+            raise AnalysisBroken("operator %s not in carquet_compare_op" % opname)
+        key = "optable|%s:%s|%s" % (RS, f.name, opname)
+        bad = None
+        unset = None
+        try:
+            for tname in ("CARQUET_PHYSICAL_INT32", "CARQUET_PHYSICAL_INT64"):
+                for lo in (-3, 0, 5):
+                    for hi in (-3, 0, 5):
+                        if lo > hi:
+                            continue
+                        for v in (-4, -3, -1, 0, 2, 5, 6):
+                            cells += 1
+                            ret, mm = run_(ops[opname], tname, lo, hi, v)
+                            if mm is None:
+                                unset = unset or "min %d max %d value %d (%s)" % (lo, hi, v, tname)
+                            elif not isinstance(mm, int):
+                                raise sem.Inconclusive("might_match is %r for min %d max %d value %d" % (mm, lo, hi, v))
+                            elif truth[opname](lo, hi, v) and mm == 0 and bad is None:
+                                bad = "%s, statistics [%d, %d], probe %d: some x in the range satisfies `x %s %d`, yet the group is reported as no match" % (
+                                    tname.replace("CARQUET_PHYSICAL_", ""), lo, hi, v, opname.replace("CARQUET_COMPARE_", ""), v)
+            ctx.ob("R5.optable", key, P.where(f.body),
+                   "%s: a row group whose [min, max] contains a matching value is never pruned (INT32 / INT64, %d bound and probe combinations, "
+                   "abstract execution with real comparators)" % (opname, cells), bad is None, bad or "")
+            ctx.ob("R6.default", "default-true|%s:%s|%s" % (RS, f.name, opname), P.where(f.body),
+                   "*might_match is assigned on every path (never left to the caller's initial value)", unset is None,
+                   "unassigned for " + unset if unset else "")
+        except (sem.Inconclusive, KeyError) as ex:
+            ctx.inconclusive("R5.optable", key, P.where(f.body), "abstract execution of the pruning decision", "%s: %s" % (type(ex).__name__, ex))
+    ctx.floor("C16 operator table cells", cells, 300)
+    try:
+        bad_err = None
+        bad_nostat = None
+        for opname in sorted(truth):
+            ret, mm = run_(ops[opname], "CARQUET_PHYSICAL_INT32", 0, 0, 99, status=7)
+            if mm == 0 or ret != 7:
+                bad_err = bad_err or "%s: returns %s with might_match %s" % (opname, ret, mm)
+            ret, mm = run_(ops[opname], "CARQUET_PHYSICAL_INT32", 0, 0, 99, have=0)
+            if mm != 1 or ret != 0:
+                bad_nostat = bad_nostat or "%s: returns %s with might_match %s" % (opname, ret, mm)
+        ctx.ob("R6.default", "stats-error-match|%s:%s" % (RS, f.name), P.where(f.body),
+               "when the statistics lookup fails its status is returned and the group is not reported as `no match`", bad_err is None, bad_err or "")
+        ctx.ob("R6.default", "no-stats-match|%s:%s" % (RS, f.name), P.where(f.body),
+               "without min/max statistics the group is a possible match", bad_nostat is None, bad_nostat or "")
+    except (sem.Inconclusive, KeyError) as ex:
+        ctx.inconclusive("R6.default", "stats-error-match|%s:%s" % (RS, f.name), P.where(f.body), "abstract execution", "%s: %s" % (type(ex).__name__, ex))
